@@ -95,6 +95,14 @@ def specs_for(tier, seed):
         add(accounts=[acct(key_type=a)], meta={"family": "roll-over accepted, contacts update fails", "from": a, "to": b, "fault": fault},
             steps=[("run", {}), ("call", set_account(key_type=b, contacts=[{"mailto": "new@example.org"}])), ("call", refuse_next_update(fault)), ("run", {"attempts": 1}),
                    ("run", {"attempts": 2})])
+    # several certificates on ONE endpoint, their issuances overlapping (one polls while the others still have requests to send): the
+    # endpoint's nonce cell is shared - no nonce is used by two of them
+    for n, polls in ((2, 3), (3, 2), (2, 6)):
+        def delay(kind, r):
+            return r.choice([0, 0, 5, 20, 40])
+        add(certs=[simple_cert("ov%d" % j, ids=[{"dns": "ov%d.example.org" % j, "challenge": "http-01"}]) for j in range(n)],
+            endpoints={"A": {"ca": {"delay": delay, "seed": seed + n + polls, "authz_polls": polls, "order_polls": polls, "nonce_on_get": polls % 2 == 0}}},
+            meta={"family": "several certificates on one endpoint", "certs": n, "polls": polls})
     add(meta={"family": "contact update"},
         steps=[("run", {}), ("call", set_account(contacts=[{"mailto": "x@example.org"}, {"mailto": "y@example.org"}])), ("run", {})])
     add(meta={"family": "CA forgets the account, then renewal"}, steps=[("run", {}), ("call", forget()), ("run", {})])
